@@ -377,6 +377,35 @@ func (s *netSim) byzAct(b int) {
 	if s.w.IndexAt(h, b) < 0 {
 		return
 	}
+	if s.rng.Intn(5) == 0 && len(cands) > 1 {
+		// SPLIT vote: nil to one victim, a block to everybody else (same type and round).  The others may reach +2/3
+		// with the Byzantine vote and move on; the victim later holds the Byzantine validator's OTHER vote first and
+		// can only complete the majority through a peer's majority claim (VoteSet.SetPeerMaj23)
+		name := cands[s.rng.Intn(len(cands)-1)] // a block, not "nil" (which is last)
+		if rs.ProposalBlock != nil {
+			if n := s.nameOf(h, rs.ProposalBlock.Hash()); s.ids[n].Hash != (common.Hash{}) {
+				name = n
+			}
+		}
+		typ := kproto.PrecommitType
+		if s.rng.Intn(3) == 0 {
+			typ = kproto.PrevoteType
+		}
+		key := fmt.Sprintf("split/%d/%d/%d/%d", b, typ, h, rs.Round)
+		if s.byzSent[key] {
+			return
+		}
+		s.byzSent[key] = true
+		vb := s.w.SignVoteFor(b, typ, h, rs.Round, s.ids[name], time.Now())
+		for _, other := range s.order {
+			if other != to {
+				s.q = append(s.q, flight{to: other, from: b, msg: &consensus.VoteMessage{Vote: vb.Copy()}})
+			}
+		}
+		vn := s.w.SignVoteFor(b, typ, h, rs.Round, types.BlockID{}, time.Now())
+		s.deliver(flight{to: to, from: b, msg: &consensus.VoteMessage{Vote: vn}})
+		return
+	}
 	switch s.rng.Intn(4) {
 	case 0, 1, 2: // a vote, possibly conflicting with what it told others
 		name := cands[s.rng.Intn(len(cands))]
